@@ -108,6 +108,12 @@ func (c *simConn) Write(p []byte) (int, error) {
 	defer h.mu.Unlock()
 	written := 0
 	for {
+		if len(p) == 0 && written > 0 {
+			// everything is in the buffer: the write has succeeded, whatever the peer does from now
+			// on (a peer that reads the last byte, answers and closes may do all that before this
+			// goroutine gets to look at the flags again)
+			return written, nil
+		}
 		if c.isClosed() {
 			return written, net.ErrClosed
 		}
